@@ -73,16 +73,54 @@ def month_template(ctx):
     """the format template whose result load_from_json compiles into the per-month regex: pieces, arg field names"""
     b = ctx.facts.body('config::SmartCalcConfig::load_from_json')
     found = []
-    for hb, t, args in model.deep_calls(ctx, b, r'Regex::new$', depth=1):     # also inside the closures of iterator chains
-        e = args[0]
+    ARGS = r'fmt::Arguments::<.*>::new$|Arguments::new$|Arguments::new_v1$'
+
+    def first_args_node(e):
         for x in walk(e):
-            if x[0] == 'call' and re.search(r'fmt::Arguments::<.*>::new$|Arguments::new$|Arguments::new_v1$', x[1]):
-                tpl = strip(x[2][0])
-                argtxt = render(x[2][1]) if len(x[2]) > 1 else ''
-                if tpl[0] == 'const':
-                    fields = re.findall(r'\.(long|short)\)', argtxt)
-                    if fields:
-                        found.append((decode_fmt_template(tpl[3]), fields, t['loc']))
+            if x[0] == 'call' and re.search(ARGS, x[1]):
+                return x
+        return None
+
+    def flatten(x, depth=0):
+        """(pieces with None for each placeholder, field read by each placeholder) of a format_args node whose arguments may be
+        formatted strings themselves (a `whole word` helper applied to each name): the composed template"""
+        tpl = strip(x[2][0])
+        if tpl[0] != 'const' or depth > 3:
+            return None
+        pieces = decode_fmt_template(tpl[3])
+        arr = strip(x[2][1]) if len(x[2]) > 1 else ('aggr', 'array', [])
+        argv = list(arr[2]) if arr[0] == 'aggr' else []
+        out_p, out_f = [], []
+        it = iter(argv)
+        for pc in pieces:
+            if pc is not None:
+                if out_p and out_p[-1] is not None:
+                    out_p[-1] += pc
+                else:
+                    out_p.append(pc)
+                continue
+            a = next(it, None)
+            inner = first_args_node(a) if a is not None else None
+            sub = flatten(inner, depth + 1) if inner is not None else None
+            if sub is not None:
+                for q_ in sub[0]:
+                    if q_ is not None and out_p and out_p[-1] is not None:
+                        out_p[-1] += q_
+                    else:
+                        out_p.append(q_)
+                out_f += sub[1]
+            else:
+                m_ = re.findall(r'\.(long|short)\b', render(a) if a is not None else '')
+                out_p.append(None)
+                out_f.append(m_[-1] if m_ else '?')
+        return out_p, out_f
+    for hb, t, args in model.deep_calls(ctx, b, r'Regex::new$', depth=1):     # also inside the closures of iterator chains
+        x = first_args_node(args[0])
+        if x is None:
+            continue
+        fl = flatten(x)
+        if fl is not None and fl[1] and all(f_ in ('long', 'short') for f_ in fl[1]):
+            found.append((fl[0], fl[1], t['loc']))
     if len(found) != 1:
         raise AnchorLost('load_from_json: expected exactly one regex built from MonthInfo.long/short, found %d' % len(found))
     return found[0]
